@@ -319,8 +319,26 @@ fn run_case(case: &Case, ev: &Evidence) -> CaseResult {
                 }
             }
         }
+        // a member that will have to refuse the commit sometimes holds a commit of its own that it has not applied yet:
+        // refusing somebody else's commit leaves that one where it is
+        let mut own_pending = false;
+        if !should && (case.c(6) as usize + *m) % 3 == 0 && !w.parties[*m].g().has_pending_commit() {
+            let t = w.now();
+            let party = &mut w.parties[*m];
+            party.gm().clear_proposal_cache();
+            if guard(|| party.gm().commit_builder().commit_time(t).build()).is_ok() {
+                own_pending = true;
+                ev.class("non_holders_with_an_own_pending_commit");
+            }
+        }
         let before = snap(&w, *m)?;
         let r = w.process(*m, &commit_bytes);
+        if own_pending {
+            if !w.parties[*m].g().has_pending_commit() && r.is_err() {
+                return Err(fail("refused_psk_commit_dropped_own_pending_commit", format!("member {m} ({why})")));
+            }
+            // (checked against `before` below; then the member gives its own commit up so that the script can go on)
+        }
         match (should, r) {
             (_, Err(e)) if e.is_panic() => return Err(panic_failure(P, "process_incoming_message(psk commit)", &e)),
             (true, Ok(ReceivedMessage::Commit(_))) => followers.push(*m),
@@ -345,6 +363,9 @@ fn run_case(case: &Case, ev: &Evidence) -> CaseResult {
                 if !d.is_empty() {
                     let sig = format!("{P}|rejected_psk_commit_changed_state|diff={}", diff_components(&d));
                     ev.known_or_fail(&sig, || format!("member {m} ({why}): {d:?}"))?;
+                }
+                if own_pending {
+                    w.parties[*m].gm().clear_pending_commit();
                 }
             }
         }
@@ -467,7 +488,7 @@ pub fn run(ctx: &Ctx) -> ! {
          Oracle: exactly the members that hold the committer's value of every PSK the commit carries (resumption: the epoch is retained by the member per the C19 retention model and not older than \
          its join) process the commit and share the committer's epoch authenticator; every other member returns an error, stays in the old epoch with a canonically unchanged state (hook) and a different \
          authenticator; a joiner joins iff it holds the same external PSKs and no resumption PSK is involved; a by-value PSK the committer cannot resolve makes the build fail without changing it. \
-         The PSK store is the shipped InMemoryPreSharedKeyStorage behind a counting wrapper; a 'different value' is often a replacement of the common value under the same id. (Changing value, id, nonce or order of a PSK changes the PSK secret: decided byte-for-byte by C13's differential.) Non-trivial = >= 2 PSKs, a divergent holder assignment, or a resumption epoch at the retention boundary.",
+         The PSK store is the shipped InMemoryPreSharedKeyStorage behind a counting wrapper; a 'different value' is often a replacement of the common value under the same id. Members that have to refuse sometimes hold a pending commit of their own: it must still be there afterwards. (Changing value, id, nonce or order of a PSK changes the PSK secret: decided byte-for-byte by C13's differential.) Non-trivial = >= 2 PSKs, a divergent holder assignment, or a resumption epoch at the retention boundary.",
     );
     let run = |c: &Case| run_case(c, &ev);
     if let Some(path) = &ctx.replay {
